@@ -70,7 +70,7 @@ def run(tier):
     for path in paths:
         res = results[path]
         nfn += res['functions_extracted']
-        for b in res['broken']: R.broke(b)
+        for b in res['broken']: R.broke_at(path, b)
         for loc, q in res['inv']: inv[loc] = q
         for f in res['fns']:
             shape = tuple(f['shape'])
